@@ -6,7 +6,7 @@ CONSTANTS
     LabelChecked = FALSE
     AtomicSeal = FALSE
     RegSets = {{p1}}
-    MaxCerts = 3
+    MaxCerts = 4
     MaxDepthHist = 0
     ExcuseDoubleCert = TRUE
     ExcuseRelabel = TRUE
